@@ -23,6 +23,9 @@ CHECKS = {
  "C14": ("exploration", "runtime monitoring: model differential across resize-on-open + lock-state hook + allocation probe + max file extent on the simulated disk",
          "Generated prefix histories x (old max, new max, prealloc) x follow-up histories; after the resizing Open the hooked lock state must be idle (then both transaction kinds are started), contents equal the model, growth adds exactly the new pages to the probe capacity, after shrink the simulated disk's extent stays <= max(previous extent, new limit), and a later plain open reports the new limit.",
          "DESIGN.md 4 (C14)", SIM),
+ "C15": ("exploration", "runtime monitoring: exhaustive method x lifecycle-state matrix executed under recover() with a model oracle before/after",
+         "The finite matrix of invalid calls (Tx, Page and queue methods x receiver states) is enumerated completely; each cell runs after sampled PRNG prefix histories under recover(); oracle: no panic, returns, documented error kind, transaction view and committed state unchanged (model differential, continuing+committing, reopen). Exhaustive over cells, sampled over prefixes.",
+         "DESIGN.md 4 (C15), Appendix A", SIM),
  "C03": ("exploration", "runtime monitoring: model-based differential execution on a simulated disk with controlled writer stalls (+race detector slice)",
          "Real txfile code is driven by PRNG-generated transaction programs on a simulated disk; a sequential page model is compared in a read transaction after every transaction end, on every in-transaction read and after reopen, while a gate stalls the background writer so that several transactions' page writes share one writer batch. Held-on-explored-executions assurance; right level because the property quantifies over histories and writer timings that cannot be enumerated.",
          "DESIGN.md 4 (C03)", SIM),
